@@ -164,10 +164,6 @@ module Z :
 
   val ltb : Big_int_Z.big_int -> Big_int_Z.big_int -> bool
 
-  val geb : Big_int_Z.big_int -> Big_int_Z.big_int -> bool
-
-  val gtb : Big_int_Z.big_int -> Big_int_Z.big_int -> bool
-
   val eqb : Big_int_Z.big_int -> Big_int_Z.big_int -> bool
 
   val abs : Big_int_Z.big_int -> Big_int_Z.big_int
@@ -483,6 +479,8 @@ val q_floordiv : q -> q -> q res
 val q_lt : q -> q -> bool
 
 val q_le : q -> q -> bool
+
+val rational_fmt : Big_int_Z.big_int -> q -> fmt_args
 
 val rational_str : Big_int_Z.big_int -> q -> string
 
